@@ -289,11 +289,7 @@ fn sub_like_random(c: &mut Case) -> CaseResult {
         let rrep = gen_rep(&mut c.tape, enc, dict_chance);
         let l = mk(&mut c.tape, &lrep.ty(false), &sv(&hay))?;
         let rr = mk(&mut c.tape, &rrep.ty(false), &sv(&pat))?;
-        if hits_empty_dict(mode, &l, &rr) && !c.strict {
-            // known finding, see sub-check like_empty_dictionary
-            c.exclude("like-empty-dictionary-values");
-            continue;
-        }
+        // (fixed finding like-empty-dictionary-values: dictionaries without values are compared like every other operand)
         c.class(lrep.class());
         if mode == Mode::ArrScalar {
             let lv = l.as_any_dictionary_opt().map(|d| d.values().clone()).unwrap_or(l.clone());
